@@ -802,6 +802,7 @@ peg::parser! {
             "(" {}
 
         // This rule matches an arithmetic word followed by a right parenthesis. It must consume the right parenthesis.
+        #[cache]
         rule arithmetic_word_plus_right_paren() =
             arithmetic_word(<[')']>) ")"
 
@@ -839,9 +840,11 @@ peg::parser! {
             double_quoted_escape_sequence() /
             double_quoted_text()
 
+        #[cache]
         rule double_quoted_sequence() -> Vec<WordPieceWithSource> =
             "\"" i:double_quoted_sequence_inner()* "\"" { i }
 
+        #[cache]
         rule gettext_double_quoted_sequence() -> Vec<WordPieceWithSource> =
             "$\"" i:double_quoted_sequence_inner()* "\"" { i }
 
@@ -888,12 +891,14 @@ peg::parser! {
 
         rule is_true(value: bool) = &[_] {? if value { Ok(()) } else { Err("not true") } }
 
+        #[cache]
         rule extglob_pattern() =
             ("@" / "!" / "?" / "+" / "*") "(" extglob_body_piece()* ")" {}
 
         rule extglob_body_piece() =
             word_piece(<[')']>, true /*in_command*/) {}
 
+        #[cache]
         rule subshell_command() =
             "(" command() ")" {}
 
@@ -975,6 +980,7 @@ peg::parser! {
 
         // TODO(parser): Deal with fact that there may be a quoted word or escaped closing brace chars.
         // TODO(parser): Improve on how we handle a '$' not followed by a valid variable name or parameter.
+        #[cache]
         rule parameter_expansion() -> WordPiece =
             "${" e:parameter_expression() "}" {
                 WordPiece::ParameterExpansion(e)
@@ -1124,6 +1130,7 @@ peg::parser! {
         rule variable_name() -> &'input str =
             $(!['0'..='9'] ['_' | '0'..='9' | 'a'..='z' | 'A'..='Z']+)
 
+        #[cache]
         pub(crate) rule command_substitution() -> WordPiece =
             "$(" c:command() ")" { WordPiece::CommandSubstitution(c.to_owned()) } /
             "`" c:backquoted_command() "`" { WordPiece::BackquotedCommandSubstitution(c) }
@@ -1138,6 +1145,7 @@ peg::parser! {
 
         // N.B. Within double quotes, a backslash inside backquotes additionally escapes a
         // double quote (e.g., "`printf %s \"$x\"`").
+        #[cache]
         rule double_quoted_command_substitution() -> WordPiece =
             "$(" c:command() ")" { WordPiece::CommandSubstitution(c.to_owned()) } /
             "`" chars:(double_quoted_backquoted_char()*) "`" {
@@ -1156,9 +1164,11 @@ peg::parser! {
             "\\\\" { "\\\\" } /
             s:$([^'`']) { s }
 
+        #[cache]
         rule arithmetic_expansion() -> WordPiece =
             "$((" e:$(arithmetic_word(<"))">)) "))" { WordPiece::ArithmeticExpression(ast::UnexpandedArithmeticExpr { value: e.to_owned() } ) }
 
+        #[cache]
         rule legacy_arithmetic_expansion() -> WordPiece =
             "$[" e:$(arithmetic_word(<"]">)) "]" { WordPiece::ArithmeticExpression(ast::UnexpandedArithmeticExpr { value: e.to_owned() } ) }
 
